@@ -33,7 +33,7 @@ Example c01_witness :
   let ts := [TAtom false "a"; TSym "<<"; TAtom false "b"; TSym "-"; TAtom false "c"; TSym "*"; TSym "-"; TAtom false "a"] in
   let env := fun x => if String.eqb x "a" then 1 else if String.eqb x "b" then 31 else 2147483647 in
   match goat_parse ts with
-  | inl (t, []) => arith t = true /\ eval_go env t = Ok 2147483647 /\ eval_goat (fun x => V I32 (env x)) t = Ok (V I32 2147483647)
+  | inl (t, []) => arith t = true /\ eval_go env t = Ok (-1) /\ eval_goat (fun x => V I32 (env x)) t = Ok (V I32 (-1))
   | _ => False
   end.
 Proof. vm_compute. repeat split; reflexivity. Qed.
